@@ -11,3 +11,24 @@ chk("C20", "domx",
     "Every input of every primitive conversion (all 256 bytes, all 10-bit/4-bit patterns, every nibble/6-bit code/byte at every position of strings of 0..31 characters, every whole-second duration to 65 days in the thorough tier, all entity instances) is run through the exported API that wraps it and compared with the definition. The domains are finite, so this is a complete decision for them.",
     "Trusts the harness's own reference definitions (a few lines each, table-free) and that the exported wrappers add nothing (they are single assignments). Quick tier thins the 5.6M-second duration domain after 2 days to day boundaries and a 61 s stride.",
     "DESIGN.md section 4 C20")
+ENGINES += [
+    {"name": "envx", "path": "harness/env", "serves_properties": ["C01", "C02", "C12"],
+     "kind_free_text": "deviation-bounded exhaustive exploration of environment answers (reply menus at every Transport.Send) on the real library over an in-memory socket model, against the independent reference BMC in harness/ref"},
+    {"name": "refbmc", "path": "harness/ref", "serves_properties": ["C01", "C02", "C12"],
+     "kind_free_text": "independent reference implementation of RMCP+/RAKP/integrity/AES-CBC and a small BMC (imports nothing from gebn/bmc); the oracle"},
+]
+chk("C01", "envx+refbmc",
+    "exhaustive enumeration of handshake configurations executed on the implementation against an independent reference BMC",
+    "Every configuration in the product of 15 suites (9 must-succeed, 6 with None), user-name length 0..16, password length 0..20, KG absent/present, privilege 0..5, both lookup modes and a BMC alphabet (randoms, GUID, session IDs incl. collision with the console's) is run through the real NewV2Session, two commands and Close against a BMC that derives its keys independently and rejects wrong AuthCodes; SIK/K1/K2 are compared byte for byte and every datagram must pass the BMC's integrity check, decryption and parsing.",
+    "Key/user-name byte values follow fixed patterns (HMAC is value-agnostic; code branches on lengths only). The reference BMC is bound to reality by agreeing with the library on all nine suites (mutual check). None-suites may be refused with an error.",
+    "DESIGN.md section 4 C01")
+chk("C02", "envx+refbmc",
+    "deviation-bounded (k<=1 full alphabet, k<=2 reduced) exhaustive exploration of mutated handshake transcripts on the implementation",
+    "From correct transcripts for each authentication algorithm every single mutation of a handshake reply is enumerated (each bit of every authenticated field, statuses 1..255, all other tags, every truncation, code-length changes, unauthenticated-byte corruption, datagram cuts, wrong password / wrong KG), sticky across retransmissions; oracle: no session unless its keys equal the BMC's, ErrIncorrectPassword for a wrong RAKP2 code.",
+    "Mutations are sticky per payload type with a 4-attempt horizon after which the context expires. Thorough adds all pairs over a reduced alphabet.",
+    "DESIGN.md section 4 C02")
+chk("C12", "envx+refbmc",
+    "exhaustive enumeration of preference lists x advertised sets x response triples on the implementation vs. a selection reference model",
+    "All 113 ordered preference lists over a 4-suite universe (with and without repetition, and the empty list) x all 16 advertised subsets x 3 advertisement layouts are served through real Get Channel Cipher Suites paging and compared with the documented selection rule; then every one of 150 algorithm triples is placed in the Open Session Response for each proposal, the BMC following through, and a session may only result when the triple equals the proposal.",
+    "Universe of 4 suites; the BMC's follow-through makes a silently accepted downgrade observable.",
+    "DESIGN.md section 4 C12, appendix A.4")
